@@ -81,6 +81,9 @@ impl StdioInterpreter {
         let messages = analyzer.take_messages();
         let lines = analyzer.take_source_file_lines();
         self.interpreter = analyzer.into_interpreter();
+        // The interpreter we just got from the analyzer is a brand-new one, so
+        // it needs the command-line options (warnings, tracing) applied to it.
+        self.args.configure_interpreter(&mut self.interpreter);
         if self.args.skip_check {
             return Ok(());
         }
